@@ -41,6 +41,8 @@ def run(ctx):
         for _ in range(250):
             desc = execlib.gen_layout(rng)
             n = rng.choice([1, 3, 10, rng.randrange(1, maxlen + 1)])
+            if rng.random() < 0.1 and not desc.get('omit'):
+                desc = execlib.with_prelude(rng, desc, gen_history)
             cases.append((desc, execlib.with_resets(rng, gen_history(rng, desc, n, 0.08))))
         execlib.check_histories(ctx, rep, cases, 'history', classify=classify)
         done += len(cases)
